@@ -299,7 +299,9 @@ def parseCase (impl : Impl) (c : Case) : Parsed :=
       | _ => none)
     let specExts ← (listOf (c.output.getD "specexts" "-")).mapM fun e =>
       if e == "e" then some [] else (e.splitOn ".").mapM hex16?
-    let (mMin, mMax) ← (match setTLSVers specMin specMax specExts with
+    -- `nospec=1`: the hello was built by crypto/tls (HelloGolang): no spec, SetTLSVers never ran
+    let (mMin, mMax) ← (if c.output.getD "nospec" "0" == "1" then some (cfgMin, cfgMax) else
+      match setTLSVers specMin specMax specExts with
       | .ok p => some p
       | .error _ => none)
     -- per-share keys: `kx=<Mlkem 0|1>,<MlkemEcdhe 0|1>,<EcdheKeys groups, +-separated>,<MlkemKeys groups>`
@@ -323,7 +325,8 @@ def parseCase (impl : Impl) (c : Case) : Parsed :=
       | s => (parseState s).map some)
     let ctx : ClientCtx := ctxOfVers mMin mMax ech
       { cfgMin := cfgMin, cfgMax := cfgMax, ech := ech, ecdheGroup := ecdhe, hybridKeys := hybrid, pskSuite := pskSuite,
-        mlkem := mlkem, mlkemEcdhe := mlkemEcdhe, keyGroups := keyGroups, mlkemGroups := mlkemGroups }
+        mlkem := mlkem, mlkemEcdhe := mlkemEcdhe, keyGroups := keyGroups, mlkemGroups := mlkemGroups,
+        quic := c.output.getD "quic" "0" == "1", golang := c.output.getD "golang" "0" == "1" }
     let resp : Response := { hello1 := h1, hello2 := h2, recVersion := recv, eeAlpn := eeAlpn, cert := cert,
                              skxCurve := skx, restOk := true }
     pure { mode := mode, offer := offer, ctx := ctx, resp := resp, hellos := hellos,
